@@ -12,7 +12,7 @@ from hypothesis import strategies as st
 from vv.core import Result, exc_violation, innermost_is_harness
 
 ID = 'C14'
-CASES = {'quick': 1200, 'thorough': 25000}
+CASES = {'quick': 1200, 'thorough': 40000}
 RULE = ('Hypothesis draws recursive tagged trees over None/bool/int(<2^64)/'
         'finite float/str(incl. near-miss "!units[" forms)/list/tuple/set/'
         'str-keyed dict/numpy scalars/numeric, bool and string arrays (<=3 '
